@@ -3,6 +3,7 @@ allocation size, release/re-seat pairing, swap hand-over, rule of three.
 
 Decides necessary conditions only (DESIGN.md section 3, C08); content equality with a
 reference byte queue is not decided."""
+import re
 from .. import q, fin
 from .. import containers as C
 from ..facts import AnalysisBroken
@@ -53,6 +54,25 @@ def run(prog, chk):
             continue
         defs = q.local_defs(f)
         # ---------------------------------------------------------------- C08.a
+        if f.short == "swap":
+            # swap hands windows over together with the bytes (and terminators) they frame: a store that sets an end pointer to anything
+            # but the other side's previous end pointer creates a new window and owes its terminator like everywhere else
+            for s_ in q.stores(f):
+                lt_ = q.no_casts(f.r(s_.lhs))
+                if not re.search(r"(^this->|\.)bufferEnd$", lt_) or s_.rhs is None or s_.op != "=":
+                    continue
+                rt_ = q.no_casts(q.xr(f, s_.rhs, defs)).strip("()")
+                if re.search(r"(^this->|^\w+\.)bufferEnd$", rt_):
+                    continue        # the hand-over
+                obj_ = lt_[:-len("bufferEnd")]
+                terms_ = [t_.node for t_ in q.stores(f) if t_.op == "=" and t_.rhs is not None and q.is_zero(f, t_.rhs) and
+                          q.no_casts(f.r(t_.lhs)).replace(" ", "") in ("*" + obj_ + "bufferEnd", "*(" + obj_ + "bufferEnd)")]
+                if terms_ and C.after_all_pass(f, f.node_pos(s_.node), q.pos_of(f, terms_))[0]:
+                    chk.ok("C08.a", f, "new window in swap terminated", f.where(s_.node), "zero store through the new end on every path", evals=2)
+                else:
+                    chk.bad("C08.a", f, "bufferEnd-write-without-terminator:" + rt_[:30], f.where(s_.node),
+                            "swap sets `%s` to `%s`, which is not the window handed over by the other side, and no path stores the terminating zero "
+                            "through it: an owning buffer that is empty but whose window had slid is re-anchored on old data" % (lt_, rt_[:60]), evals=2)
         if f.short != "swap":
             _sin, sat = q.nullness(f, "this->buffer")
             writes = q.field_writes(f, "bufferEnd")
